@@ -839,9 +839,12 @@ impl ModulePath {
         self.0.rfind('/').and_then(|idx| self.0.get(..idx))
     }
 
-    /// Check if this is a relative specifier (starts with `.` or `..`)
+    /// Check if this is a relative specifier: `./x`, `../x`, or the directory forms `.` and `..`
     pub fn is_relative(specifier: &str) -> bool {
-        specifier.starts_with("./") || specifier.starts_with("../")
+        specifier == "."
+            || specifier == ".."
+            || specifier.starts_with("./")
+            || specifier.starts_with("../")
     }
 
     /// Check if this is a bare specifier (not relative, not absolute)
